@@ -211,6 +211,26 @@ def normalize(d):
     return dump_tree(load_tree(d))
 
 
+def fidelity_problems(orig, norm, path=()):
+    """differences between a tree description and what the public constructors made of it (explicit
+    attributes only: an implicit number is filled in by the constructor)"""
+    out = []
+    for k in ("c", "v", "name", "il", "ih", "inc", "h", "t", "p", "s", "n"):
+        if orig.get(k) != norm.get(k) and not (k in ("h", "t") and not orig.get(k) and not norm.get(k)):
+            out.append((list(path), k, orig.get(k), norm.get(k)))
+    if "num" in orig:
+        if bool(orig["num"].get("imp")) != bool(norm["num"].get("imp")):
+            out.append((list(path), "implicit flag", orig["num"].get("imp"), norm["num"].get("imp")))
+        elif not orig["num"].get("imp") and canon_num(orig["num"]) != canon_num(norm["num"]):
+            out.append((list(path), "number", orig["num"], norm["num"]))
+    if len(orig.get("ch", [])) != len(norm.get("ch", [])):
+        out.append((list(path), "children", len(orig.get("ch", [])), len(norm.get("ch", []))))
+    else:
+        for i, (a, b) in enumerate(zip(orig.get("ch", []), norm.get("ch", []))):
+            out.extend(fidelity_problems(a, b, path + (i,)))
+    return out
+
+
 def canon_num(nj):
     """numeric canonical form of a number json (value only)"""
     n = int(nj["coeff"])
